@@ -40,7 +40,9 @@ models (`Dnp3.Model.MasterSession`, `Dnp3.Model.Outstation`, `Dnp3.Model.Databas
      the same `formatReadResponse`; the database theorems `series_conserves`,
      `series_covers_exactly_once`, `series_is_snapshot_partial` apply to them) — D12 lives there.
 (ii) `class0_response_delivers_database_partial`: parser ∘ encoder round trip for a complete
-     class-0 response of an idle database: the handler gets exactly one call per run of consecutive
+     class-0 response of an idle database of the `pair` engine (binary inputs with static g1v2, analog
+     inputs with g30v1, no point of the other six types, both enabled in `ClassZeroConfig` — an invariant
+     of these databases: `class0_database_hypotheses_reachable`): the handler gets exactly one call per run of consecutive
      indices, binaries then analogs, carrying `(index, wire octets of the CURRENT value)` of every
      point exactly once, ascending.  General in the indices (< 65536): `encodeStatic` only ever
      writes qualifier 0x01, so 0x00 does not arise.
@@ -207,7 +209,7 @@ example : ∀ op ∈ [PInput.tick 100, .add .binary 0 1, .cut, .deliver true non
 /-- a concrete run (default configurations, a tick, a point added, a cut): its 14th group hands the
     master one item; the run splits as `wire_carries_only_what_was_sent` needs -/
 def exAll : List Group :=
-  allGroups (Pair.start {} 10 {} 2048 {} none 0 0) [.tick 100, .add .binary 0 1, .cut]
+  allGroups (Pair.start {} (legacyEv 10) {} 2048 {} none 0 0) [.tick 100, .add .binary 0 1, .cut]
 def exItems : List Item :=
   match (exAll[13]? : Option Group) with | some (Group.delivered _ i) => i | _ => []
 example : exAll = exAll.take 13 ++ Group.delivered false exItems :: exAll.drop 14 ∧ ∃ it rest, exItems = it :: rest :=
@@ -254,8 +256,12 @@ Proved: the single-fragment core, in two theorems.
     range headers, qualifier 0x01 — the only one `encodeStatic` writes).
 
     Database `db`: maps sorted (`static_sorted_invariant`), no READ in progress, room for the two
-    selections, no event `Selected`, indices below 65536; `cap` large enough for the response to
-    be complete.  Then the object octets `objs` of `select_class_zero` + `write_response_headers`
+    selections, no event `Selected`, indices below 65536; the database is one of the `pair` engine:
+    binary inputs configured with static variation g1v2 and analog inputs with g30v1 (`hsv`, `hsa`: what
+    `Db.add` configures, `addStaticVar`), no point of the other six types (`hempty`), both types enabled
+    in `ClassZeroConfig` (`hczb`, `hcza`: the default) — `class0_database_hypotheses_reachable` proves these
+    five for every database built from `Db.new (legacyEv n)` by `Db.add .binary` / `Db.add .analog` and any
+    other operations; `cap` large enough for the response to be complete.  Then the object octets `objs` of `select_class_zero` + `write_response_headers`
     parse (`parseRespObjects`), and `extract_measurements` over the parsed headers makes exactly
     these calls, in this order: for every maximal run of consecutive indices of the binary points
     one `handle_binary_input` call (g1v2, qualifier 1), then for every run of the analog points one
@@ -268,6 +274,9 @@ theorem class0_response_delivers_database_partial (db : Db) (cap : Nat) (who : W
     (hs : StaticSorted db) (hq : db.queue = []) (hcap : 2 ≤ db.selCap)
     (hev : ∀ r ∈ db.events, r.st ≠ .selected)
     (hib : ∀ p ∈ db.bins, p.1 < 65536) (hia : ∀ p ∈ db.ans, p.1 < 65536)
+    (hsv : ∀ p ∈ db.bins, p.2.svar = 2) (hsa : ∀ p ∈ db.ans, p.2.svar = 1)
+    (hempty : ∀ t, t ≠ .binary → t ≠ .analog → db.map t = [])
+    (hczb : db.czero.binary = true) (hcza : db.czero.analog = true)
     (hc : (db.selectClass0.1.writeResponse cap).2.2.2 = true) :
     let objs := (db.selectClass0.1.writeResponse cap).2.1
     let B := objsOf .binary db.bins
@@ -279,25 +288,61 @@ theorem class0_response_delivers_database_partial (db : Db) (cap : Nat) (who : W
         db.bins.map (fun p => (p.1, [p.2.current.wire .binary])) ++
         db.ans.map (fun p => (p.1, stObjBytes { idx := p.1, g := 30, v := 1, m := p.2.current })) ∧
       (∀ r ∈ runs B ++ runs A, RunOK r) := by
-  obtain ⟨h1, h2⟩ := class0_roundtrip db hs hq hcap hev hib hia cap hc who a
+  obtain ⟨h1, h2⟩ := class0_roundtrip db hs hq hcap hev hib hia hsv hsa hempty hczb hcza cap hc who a
   refine ⟨_, h1, h2, ?_, ?_⟩
   · rw [List.flatMap_append, runCalls_items, runCalls_items, runs_flatten, runs_flatten]
     simp only [objsOf, List.map_map]
     rfl
   · intro r hr
     rcases List.mem_append.mp hr with hr | hr
-    · exact runs_ok _ _ (Nat.le_refl _) (fun o ho => (objsOf_plain .binary db.bins hib o ho).1) r hr
-    · exact runs_ok _ _ (Nat.le_refl _) (fun o ho => (objsOf_plain .analog db.ans hia o ho).1) r hr
+    · exact runs_ok _ _ (Nat.le_refl _) (fun o ho => (objsOf_plain .binary (.inl rfl) db.bins hib o ho).1) r hr
+    · exact runs_ok _ _ (Nat.le_refl _) (fun o ho => (objsOf_plain .analog (.inr rfl) db.ans hia o ho).1) r hr
 
-/-- binaries 0, 1, 5 and analog 2, two of them updated (their events sit `Unselected` in the
+/-- binaries 0, 1, 5 and analog 2 (event buffer: binary and analog inputs, 10 events each), two of them
+    updated -/
+def exDb : Db := DbProofs.run (Db.new (legacyEv 10) none) [.add .binary 0 1, .add .binary 1 1, .add .binary 5 0, .add .analog 2 2,
+      .update .binary 1 1 1 7, .update .analog 2 (-5) 1 8]
+
+/-- binaries 0, 1, 5 and analog 2, two of them updated (their two events sit `Unselected` in the
     buffer), 100 octets of room: all hypotheses hold -/
 example :
-    let db := DbProofs.run (Db.new 10 none) [.add .binary 0 1, .add .binary 1 1, .add .binary 5 0, .add .analog 2 2,
-      .update .binary 1 1 1 7, .update .analog 2 (-5) 1 8]
-    StaticSorted db ∧ db.queue = [] ∧ 2 ≤ db.selCap ∧ (∀ r ∈ db.events, r.st ≠ .selected) ∧
-    (∀ p ∈ db.bins, p.1 < 65536) ∧ (∀ p ∈ db.ans, p.1 < 65536) ∧
-    (db.selectClass0.1.writeResponse 100).2.2.2 = true := by
-  decide
+    StaticSorted exDb ∧ exDb.queue = [] ∧ 2 ≤ exDb.selCap ∧ (∀ r ∈ exDb.events, r.st ≠ .selected) ∧
+    (∀ p ∈ exDb.bins, p.1 < 65536) ∧ (∀ p ∈ exDb.ans, p.1 < 65536) ∧
+    (∀ p ∈ exDb.bins, p.2.svar = 2) ∧ (∀ p ∈ exDb.ans, p.2.svar = 1) ∧
+    (∀ t, t ≠ .binary → t ≠ .analog → exDb.map t = []) ∧
+    exDb.czero.binary = true ∧ exDb.czero.analog = true ∧
+    (exDb.selectClass0.1.writeResponse 100).2.2.2 = true ∧ exDb.events.length = 2 := by
+  refine ⟨by decide, by decide, by decide, by decide, by decide, by decide, by decide, by decide, ?_,
+    by decide, by decide, by decide, by decide⟩
+  intro t h1 h2
+  cases t <;> first | exact absurd rfl h1 | exact absurd rfl h2 | rfl
+
+/-- the database hypotheses of the class-0 theorems other than idleness (`hs`, `hsv`, `hsa`, `hempty`, `hczb`,
+    `hcza`) hold in EVERY state of a database created as the engines create it (`Db.new (legacyEv n)`: default
+    `ClassZeroConfig`) to which points are added as binary / analog inputs only (`Db.add`: static g1v2 /
+    g30v1), whatever updates, READ selections, responses, unsolicited responses, confirms and resets
+    happen in between (`DbOp`, the operations the outstation session model performs on its database) -/
+theorem class0_database_hypotheses_reachable (n : Nat) (sel : Option Nat) (ops : List DbOp)
+    (hops : ∀ op ∈ ops, ∀ t idx cls, op = .add t idx cls → t = .binary ∨ t = .analog) :
+    let db := DbProofs.run (Db.new (legacyEv n) sel) ops
+    StaticSorted db ∧ (∀ p ∈ db.bins, p.2.svar = 2) ∧ (∀ p ∈ db.ans, p.2.svar = 1) ∧
+    (∀ t, t ≠ .binary → t ≠ .analog → db.map t = []) ∧ db.czero.binary = true ∧ db.czero.analog = true := by
+  intro db
+  have h := class0_hyps_reachable n sel ops hops
+  exact ⟨sorted_run _ ops (new_sorted _ sel), h.sv, h.sa, h.empty, h.czb, h.cza⟩
+
+/-- the operations that built `exDb` add binary / analog inputs only -/
+example : ∀ op ∈ [DbOp.add .binary 0 1, .add .binary 1 1, .add .binary 5 0, .add .analog 2 2,
+      .update .binary 1 1 1 7, .update .analog 2 (-5) 1 8],
+    ∀ t idx cls, op = .add t idx cls → t = .binary ∨ t = .analog := by
+  intro op h t idx cls e
+  subst e
+  simp only [List.mem_cons, List.not_mem_nil, or_false, DbOp.add.injEq, reduceCtorEq] at h
+  rcases h with ⟨rfl, _, _⟩ | ⟨rfl, _, _⟩ | ⟨rfl, _, _⟩ | ⟨rfl, _, _⟩
+  · exact .inl rfl
+  · exact .inl rfl
+  · exact .inl rfl
+  · exact .inr rfl
 
 /-- the wire octets: a binary is its flags octet with the state in bit 7; an analog g30v1 is flags
     (OVER_RANGE set when the value saturates) and the 32-bit two's complement value -/
@@ -338,6 +383,9 @@ theorem quiescent_class0_poll_converges_partial
     (hs : StaticSorted ao.1.db) (hq : ao.1.db.queue = []) (hcap : 2 ≤ ao.1.db.selCap)
     (hev : ∀ r ∈ ao.1.db.events, r.st ≠ .selected)
     (hib : ∀ p ∈ ao.1.db.bins, p.1 < 65536) (hia : ∀ p ∈ ao.1.db.ans, p.1 < 65536)
+    (hsv : ∀ p ∈ ao.1.db.bins, p.2.svar = 2) (hsa : ∀ p ∈ ao.1.db.ans, p.2.svar = 1)
+    (hempty : ∀ t, t ≠ .binary → t ≠ .analog → ao.1.db.map t = [])
+    (hczb : ao.1.db.czero.binary = true) (hcza : ao.1.db.czero.analog = true)
     (hfit : (ao.1.db.selectClass0.1.writeResponse (ao.1.cfg.sol - 4)).2.2.2 = true)
     (ao' : Dnp3.Acc) (series : Option Series)
     (hres : handleRequestFromIdle ao f ctrl 1 objects raw = some (ao', series))
@@ -355,14 +403,14 @@ theorem quiescent_class0_poll_converges_partial
   obtain ⟨con, i1, i2, hi2, htx, _, hcon⟩ := read_from_idle ao f ctrl 1 objects raw [class0Hdr] (.inl hcl) hbuf h4 ao' series hres
   obtain ⟨e1, e2⟩ := dbSelectAll_class0 ao.1.db
   rw [e1] at htx hcon
-  rw [e2, selectClass0_iin ao.1.db hq hcap] at htx
-  obtain ⟨hoct, hnoev⟩ := class0_octets ao.1.db hs hq hcap hev (ao.1.cfg.sol - 4) hfit
+  rw [e2, selectClass0_iin ao.1.db hq hcap hempty] at htx
+  obtain ⟨hoct, hnoev⟩ := class0_octets ao.1.db hs hq hcap hev hsv hsa hempty hczb hcza (ao.1.cfg.sol - 4) hfit
   have hcon' : con = false := by rw [hcon hnb, hnoev, hfit]; rfl
   rw [hfit, hcon'] at htx
   refine ⟨_, htx, ?_⟩
   have hctrl : AppCtrl.ofNat (AppCtrl.toNat ⟨true, true, false, false, ctrl.seq⟩) = ⟨true, true, false, false, ctrl.seq⟩ :=
     Dnp3.Proofs.C02Session.ofNat_toNat true true false false ⟨ctrl.seq, hseq⟩
-  obtain ⟨hp, hfold⟩ := class0_roundtrip ao.1.db hs hq hcap hev hib hia (ao.1.cfg.sol - 4) hfit (whoOf dest t)
+  obtain ⟨hp, hfold⟩ := class0_roundtrip ao.1.db hs hq hcap hev hib hia hsv hsa hempty hczb hcza (ao.1.cfg.sol - 4) hfit (whoOf dest t)
     (Master.emit (modAssoc (notifyLinkActivity am dest) dest (·.processIin i1 (0 ||| 0 ||| i2)))
       (.deliverBegin (whoOf dest t) (rtOf t)
         (AppCtrl.ofNat (AppCtrl.toNat ⟨true, true, false, false, ctrl.seq⟩)).toNat i1 (0 ||| 0 ||| i2)))
@@ -385,16 +433,66 @@ theorem quiescent_class0_poll_converges_partial
       value / flags / time (`core`) of a record that was in the buffer when the request arrived —
       selecting never changes those (`select_only_selects`);
     * every static object written is `(index, selected cell)` of an EXISTING point of the matching
-      type (g1 ↦ binary map, g30 ↦ analog map; g34 dead-bands carry no measurement), obtained
-      from one of the queued headers (`selected_header_is_range`: each point of the range once,
+      type (g1 ↦ binary map, g30 ↦ analog map; a g34 object is the dead-band of an existing analog input),
+      obtained from one of the queued headers (`selected_header_is_range`: each point of the range once,
       ascending).
     The `selected` cell of a point is its CURRENT value at the moment its header was selected
     (`selectStatic_snapshot`; for headers of this very request that moment is this step).  Known
     exception D12: a point ADDED while a multi-fragment series is open is reported by a later
     fragment with the default `selected` cell; `series_is_snapshot_partial` excludes it by allowing
     only write / update / clear (`SOp`) between the fragments.
-    No object is cross-wired between types: group 1 objects come from `bins`, group 30 from `ans`. -/
+    No object is cross-wired between types: group 1 objects come from `bins`, group 30 from `ans`.
+    `hempty`: the database holds binary and analog inputs only (the `pair` engine's databases,
+    `class0_database_hypotheses_reachable`); `outstation_writes_only_database_values_all_types` below is the
+    statement without it, for points of all eight types. -/
 theorem outstation_writes_only_database_values
+    (a : Dnp3.Acc) (f : Frag) (ctrl : AppCtrl) (func : Nat) (objects : Except Nat (List ObjHdr)) (raw : List Nat)
+    (hs : List ObjHdr)
+    (hcl : classify a.1 f ctrl func objects = .newRead hs ∨ ∃ x, classify a.1 f ctrl func objects = .repeatRead x hs)
+    (hbuf : a.1.cfg.sol ≤ a.1.solBuf.length) (h4 : 4 ≤ a.1.cfg.sol) (hsorted : StaticSorted a.1.db)
+    (hempty : ∀ t, t ≠ .binary → t ≠ .analog → a.1.db.map t = [])
+    (a' : Dnp3.Acc) (series : Option Series)
+    (hres : handleRequestFromIdle a f ctrl func objects raw = some (a', series)) :
+    let db1 := (dbSelectAll a.1.db hs).1
+    let cap := a.1.cfg.sol - 4
+    ∃ hdr4 : List Nat, hdr4.length = 4 ∧
+      a'.2 = a.2 ++ [.tx f.src (hdr4 ++ (encodeEvents none (db1.writeEvents cap).2.1 ++
+        (writeStaticObjs db1 cap).flatMap (encodeStatic none)))] ∧
+      a'.1.db = (db1.writeResponse cap).1 ∧
+      (∃ n, (db1.writeEvents cap).2.1 = (db1.events.filter isSelected).take n) ∧
+      (∀ r ∈ (db1.writeEvents cap).2.1, r ∈ db1.events ∧ ∃ r0 ∈ a.1.db.events, core r0 = core r) ∧
+      (∀ o ∈ (writeStaticObjs db1 cap).flatten,
+        (o.g = 1 ∧ ∃ p ∈ db1.bins, o.idx = p.1 ∧ o.m = p.2.selected) ∨
+        (o.g = 30 ∧ ∃ p ∈ db1.ans, o.idx = p.1 ∧ o.m = p.2.selected) ∨
+        (o.g = 34 ∧ ∃ p ∈ db1.ans, o.idx = p.1)) := by
+  intro db1 cap
+  obtain ⟨con, i1, i2, _, htx, hdb, _⟩ := read_from_idle a f ctrl func objects raw hs hcl hbuf h4 a' series hres
+  have hs1 : StaticSorted db1 := dbSelectAll_sorted hs a.1.db hsorted
+  have he1 : ∀ t, t ≠ .binary → t ≠ .analog → db1.map t = [] :=
+    fun t h1 h2 => dbSelectAll_empty hs a.1.db t (hempty t h1 h2)
+  have hoct := Dnp3.Props.Db.response_octets db1 hs1 cap
+  obtain ⟨n, _, hn, _⟩ := writeEvents_spec db1 cap
+  refine ⟨[(⟨true, (db1.writeResponse cap).2.2.2, con, false, ctrl.seq⟩ : AppCtrl).toNat, 0x81, i1,
+      (dbSelectAll a.1.db hs).2 ||| i2], rfl, ?_, hdb, ⟨n, hn⟩, ?_, ?_⟩
+  · rw [htx, ← hoct]
+  · intro r hr
+    rw [hn] at hr
+    have hr1 : r ∈ db1.events := (List.mem_filter.mp (List.mem_of_mem_take hr)).1
+    refine ⟨hr1, ?_⟩
+    have : core r ∈ db1.events.map core := List.mem_map.mpr ⟨r, hr1, rfl⟩
+    rw [dbSelectAll_core] at this
+    obtain ⟨r0, h0, e0⟩ := List.mem_map.mp this
+    exact ⟨r0, h0, e0⟩
+  · intro o ho
+    obtain ⟨it, _, hit⟩ := mem_writeStaticObjs db1 hs1 cap o ho
+    exact mem_itemObjs db1 he1 it o hit
+
+/-- the same for a database with points of ANY of the eight types (no `hempty`): every static object
+    written is `(index, selected cell)` of an existing point of the type whose static group it carries
+    (`staticGroup`: g1, g3, g10, g20, g21, g30, g40, g110), or (g34) the configured dead-band of an existing
+    analog input.  `outstation_writes_only_database_values` is the instance for the `pair` engine's
+    databases, where only `staticGroup .binary = 1` and `staticGroup .analog = 30` can occur. -/
+theorem outstation_writes_only_database_values_all_types
     (a : Dnp3.Acc) (f : Frag) (ctrl : AppCtrl) (func : Nat) (objects : Except Nat (List ObjHdr)) (raw : List Nat)
     (hs : List ObjHdr)
     (hcl : classify a.1 f ctrl func objects = .newRead hs ∨ ∃ x, classify a.1 f ctrl func objects = .repeatRead x hs)
@@ -410,9 +508,8 @@ theorem outstation_writes_only_database_values
       (∃ n, (db1.writeEvents cap).2.1 = (db1.events.filter isSelected).take n) ∧
       (∀ r ∈ (db1.writeEvents cap).2.1, r ∈ db1.events ∧ ∃ r0 ∈ a.1.db.events, core r0 = core r) ∧
       (∀ o ∈ (writeStaticObjs db1 cap).flatten,
-        (o.g = 1 ∧ ∃ p ∈ db1.bins, o.idx = p.1 ∧ o.m = p.2.selected) ∨
-        (o.g = 30 ∧ ∃ p ∈ db1.ans, o.idx = p.1 ∧ o.m = p.2.selected) ∨
-        (o.g = 34 ∧ ∃ p ∈ db1.ans, o.idx = p.1)) := by
+        (∃ t, o.g = staticGroup t ∧ ∃ p ∈ db1.map t, o.idx = p.1 ∧ o.m = p.2.selected) ∨
+        (o.g = 34 ∧ ∃ p ∈ db1.ans, o.idx = p.1 ∧ o.m = { value := p.2.deadband, flags := 0 })) := by
   intro db1 cap
   obtain ⟨con, i1, i2, _, htx, hdb, _⟩ := read_from_idle a f ctrl func objects raw hs hcl hbuf h4 a' series hres
   have hs1 : StaticSorted db1 := dbSelectAll_sorted hs a.1.db hsorted
@@ -431,7 +528,7 @@ theorem outstation_writes_only_database_values
     exact ⟨r0, h0, e0⟩
   · intro o ho
     obtain ⟨it, _, hit⟩ := mem_writeStaticObjs db1 hs1 cap o ho
-    exact mem_itemObjs db1 it o hit
+    exact mem_itemObjs_ty db1 it o hit
 
 /-- `outstation_writes_only_database_values` (unsolicited): when `check_unsolicited` starts a
     non-null series it transmits to the configured master 4 header octets followed by EXACTLY the
@@ -477,10 +574,8 @@ theorem cut_loses_only_in_flight (s : PState) :
 
 /-! ## concrete instances of the hypotheses of the session-level theorems -/
 
-/-- binaries 0, 1, 5 and analog 2 with two updates; 300-octet buffers; unsolicited enabled -/
-def exDb : Db := DbProofs.run (Db.new 10 none) [.add .binary 0 1, .add .binary 1 1, .add .binary 5 0, .add .analog 2 2,
-      .update .binary 1 1 1 7, .update .analog 2 (-5) 1 8]
-def exO : OState := { OState.init { sol := 300, unsol := 300, unsolicited := true } 10 with db := exDb }
+/-- `exDb` (binaries 0, 1, 5 and analog 2 with two updates); 300-octet buffers; unsolicited enabled -/
+def exO : OState := { OState.init { sol := 300, unsol := 300, unsolicited := true } (legacyEv 10) with db := exDb }
 /-- READ g60v1 with sequence number 3 from master address 1 -/
 def exFrag : Frag := ⟨0, 1, none, [0xC3, 1, 60, 1, 6]⟩
 
@@ -494,6 +589,9 @@ example :
     ao.1.cfg.sol ≤ ao.1.solBuf.length ∧ 4 ≤ ao.1.cfg.sol ∧ ao.1.lastBroadcast = none ∧
     StaticSorted ao.1.db ∧ ao.1.db.queue = [] ∧ 2 ≤ ao.1.db.selCap ∧ (∀ r ∈ ao.1.db.events, r.st ≠ .selected) ∧
     (∀ p ∈ ao.1.db.bins, p.1 < 65536) ∧ (∀ p ∈ ao.1.db.ans, p.1 < 65536) ∧
+    (∀ p ∈ ao.1.db.bins, p.2.svar = 2) ∧ (∀ p ∈ ao.1.db.ans, p.2.svar = 1) ∧
+    (∀ t, t ≠ .binary → t ≠ .analog → ao.1.db.map t = []) ∧
+    ao.1.db.czero.binary = true ∧ ao.1.db.czero.analog = true ∧
     (ao.1.db.selectClass0.1.writeResponse (ao.1.cfg.sol - 4)).2.2.2 = true ∧
     (handleRequestFromIdle ao exFrag ctrl 1 objects [60, 1, 6]).isSome = true ∧
     (let am : Master.Acc := ({ assocs := [{ addr := 1024, cfg := {}, seq := 4 }], ring := [1024],
@@ -501,7 +599,10 @@ example :
      am.1.mode = .waitRead 1024 (.integrity 15) (AppCtrl.ofNat 0xC3).seq true 5000 ∧
      (am.1.getAssoc 1024).isSome = true) := by
   refine ⟨rfl, by decide +kernel, by decide +kernel, by decide +kernel, rfl, by decide +kernel, rfl,
-    by decide +kernel, by decide +kernel, by decide +kernel, by decide +kernel, by decide +kernel,
+    by decide +kernel, by decide +kernel, by decide +kernel, by decide +kernel,
+    by decide +kernel, by decide +kernel,
+    fun t h1 h2 => by cases t <;> first | exact absurd rfl h1 | exact absurd rfl h2 | rfl,
+    rfl, rfl, by decide +kernel,
     by decide +kernel, rfl, rfl⟩
 
 /-- … and of `outstation_unsolicited_writes_only_buffer_events`: class 1 enabled, the null response
